@@ -152,6 +152,8 @@ def labels(case):
             out.add("zip-interrupted")
         if cr["kind"] == "W" and cr["role"] == "StartTime" and cr["variant"] == "empty":
             out.add("start-time-empty")
+        if cr["kind"] == "W" and cr["role"] == "Time" and cr["variant"] == "empty" and case["search"] == "drawer":
+            out.add("drawer-time-empty")
         if cr["kind"] == "W" and cr["role"] == "Dill" and cr["variant"] in ("empty", "half"):
             out.add("search-internal-truncated")
         if case["search"] == "lbfgs":
@@ -191,10 +193,20 @@ def close(a, b):
     return a == b or abs(a - b) <= 1e-12 * max(abs(a), abs(b))
 
 
+def stored_tag(fs, csv):
+    """The generation g of a complete result on disk (archive if there is a readable one, else folder), or None."""
+    src = fs["zip"]["members"] if fs["zip"]["state"] == "full" else fs["files"]
+    for r, st, t in src:
+        if r == "Summary" and st == "full" and isinstance(t, int) and stored(fs, t, csv):
+            return t
+    return None
+
+
 def oracle(case, res):
     """Direct statement of C06 on what the implementation did. Returns a list of (signature, message)."""
     fails = []
-    first = None         # (run index, observation) of the run that completed the fit
+    done = None          # (run index, generation) at which the fit became complete (.completed with its result files)
+    ref = None           # first result returned after / at completion
     dill_ref = None
     for i, (spec, run) in enumerate(zip(case["runs"], res["runs"])):
         out = run["outcome"]
@@ -203,6 +215,11 @@ def oracle(case, res):
             continue
         if run["fs"]["inconsistent"]:
             fails.append(("driver", "run %d: truncation bookkeeping disagrees with file contents %s" % (i, run["fs"]["inconsistent"])))
+        was_done = done
+        if done is None:
+            g = stored_tag(run["fs"], case["csv"])
+            if g is not None:
+                done = (i, g)
         if out.startswith("exc:"):
             # (resume) a run that is not killed terminates normally with a complete result
             fails.append((out, "run %d (after %s) did not terminate normally: %s %s" % (
@@ -211,43 +228,54 @@ def oracle(case, res):
             r = run["result"]
             if run["result_tag"] is None or not stored(run["fs"], run["result_tag"], case["csv"]):
                 fails.append(("incomplete", "run %d returned a result but its files are not completely on disk" % i))
-            if first is None:
-                first = (i, run)
+            if was_done is None:
                 if run["evals"] == 0:
                     fails.append(("no-sampling", "run %d completed the fit without evaluating the likelihood" % i))
                 if r["samples_ll"] is None:
                     fails.append(("no-samples", "run %d completed the fit but returned no samples" % i))
             else:
-                j, orig = first
-                o = orig["result"]
+                j, g = was_done
                 # (complete once) no sampling is repeated; same best fit, summary statistics, persisted samples
                 if run["evals"] != 0:
-                    fails.append(("resampled", "run %d evaluated the likelihood %d times although run %d had completed the fit" % (i, run["evals"], j)))
-                if r["summary_ll"] != o["summary_ll"] or r["instance"] != o["instance"] or r.get("median") != o.get("median"):
-                    fails.append(("result-changed", "run %d reports best fit %s / %s, the completed run %d reported %s / %s" % (
-                        i, r["summary_ll"], r["instance"], j, o["summary_ll"], o["instance"])))
+                    fails.append(("resampled", "run %d evaluated the likelihood %d times although the fit was complete since run %d" % (i, run["evals"], j)))
+                if run["result_tag"] != g:
+                    fails.append(("result-changed", "run %d reports a best fit of generation %s, run %d had completed generation %s" % (i, run["result_tag"], j, g)))
                 if case["csv"]:
                     if r["samples_ll"] is None:
-                        fails.append(("samples-missing", "run %d returns no samples although the samples table was written by run %d" % (i, j)))
-                    elif (len(r["samples_ll"]) != len(o["samples_ll"])
-                          or not all(close(a, b) for a, b in zip(r["samples_ll"], o["samples_ll"]))
-                          or not all(close(a, b) for x, y in zip(r["samples_par"], o["samples_par"]) for a, b in zip(x, y))):
-                        fails.append(("samples-changed", "run %d returns other samples than the completed run %d persisted" % (i, j)))
+                        fails.append(("samples-missing", "run %d returns no samples although the samples table was written" % i))
+                    elif run["samples_tag"] != g:
+                        fails.append(("samples-changed", "run %d returns samples of generation %s, not %s" % (i, run["samples_tag"], g)))
                 elif r["samples_ll"] is not None:
                     fails.append(("samples-unexpected", "run %d returns samples although no samples table is persisted" % i))
-        if first is not None:
+            if done is not None:
+                if ref is None:
+                    ref = (i, r)
+                else:
+                    j, o = ref
+                    if r["summary_ll"] != o["summary_ll"] or r["instance"] != o["instance"] or r.get("median") != o.get("median"):
+                        fails.append(("result-changed", "run %d reports best fit %s / %s, run %d reported %s / %s" % (
+                            i, r["summary_ll"], r["instance"], j, o["summary_ll"], o["instance"])))
+                    if case["csv"] and r["samples_ll"] is not None and o["samples_ll"] is not None:
+                        if (len(r["samples_ll"]) != len(o["samples_ll"])
+                                or not all(close(a, b) for a, b in zip(r["samples_ll"], o["samples_ll"]))
+                                or not all(close(a, b) for x, y in zip(r["samples_par"], o["samples_par"]) for a, b in zip(x, y))):
+                            fails.append(("samples-changed", "run %d returns other samples than run %d" % (i, j)))
+        if done is not None:
             # (durable) the completed result is never lost, corrupted or replaced -- whatever happens to later runs
-            j, orig = first
-            if not stored(run["fs"], orig["result_tag"], case["csv"]):
+            j, g = done
+            if not stored(run["fs"], g, case["csv"]):
                 fails.append(("lost", "after run %d (%s) the result completed by run %d is no longer on disk (folder %s, archive %s)" % (
                     i, out, j, "with .completed" if any(f[0] == "Marker" for f in run["fs"]["files"]) else "without .completed",
                     run["fs"]["zip"]["state"])))
             if out == "ok":
                 dl = dill_of(run["fs"])
-                if i == j:
-                    dill_ref = dl
-                elif dill_ref is not None and dl != dill_ref:
-                    fails.append(("internal-replaced", "run %d replaced the persisted search state %s of the completed fit by %s" % (i, dill_ref, dl)))
+                if dill_ref is None:
+                    dill_ref = (dl,)
+                elif dl != dill_ref[0]:
+                    fails.append(("internal-replaced", "run %d replaced the persisted search state %s of the completed fit by %s" % (i, dill_ref[0], dl)))
+    last = res["runs"][-1]
+    if last["outcome"] == "ok" and done is None:
+        fails.append(("incomplete", "the last run returned a result but no complete result is on disk"))
     # one report per signature
     seen, out = set(), []
     for sig, msg in fails:
